@@ -371,7 +371,7 @@ class L2Machine(Machine):
     def call_fn(self, cfg, fr, f, args, dest, ret_bb, t):
         from .absint import std_name
         names = [f.get('rpath'), f.get('path')]
-        names = names + [std_name(n) for n in names if n and std_name(n) != n]
+        names = [x for n in names if n for x in ((n, std_name(n)) if std_name(n) != n else (n,))]
         if any(n and '::codec::' in n and n.split('::')[0] in self.leaf_crates for n in names):
             r = codec_leaf(self, cfg, f, args, t)
             if r is not NotImplemented:
